@@ -2,6 +2,7 @@
 Pure (stateless) requests of the line protocol. Not part of any proof.
 -/
 import Verif.Driver.Codec
+import Verif.Spec.Rfc4511
 
 open Lean
 
@@ -43,6 +44,10 @@ def pureOp (op : String) (j : Json) : Except String Json := do
     match decMsg (regsFromJson j) depth (← getBytes j "hex") with
     | .ok (m, rest) => return Json.mkObj [("ok", Json.mkObj [("msg", msgToJson m), ("rest", rest.length)])]
     | .error e => return errJson e
+  | "rfcdec" =>
+    match Rfc.decode (← getBytes j "hex") with
+    | some m => return Json.mkObj [("ok", msgToJson m)]
+    | none => return Json.mkObj [("err", "reject")]
   | _ => throw s!"unknown op {op}"
 
 end Verif.Driver
